@@ -25,6 +25,16 @@ bnp.change_encoding, .to_string() / .tolist() / str() / from_encoded_array):
               (refmodels/alphabets.apply_view).  A failure that a freshly built array of the same text shows too is
               reported under the plain retarget signature, one that only the view shows under retarget-view:...
   numeric     offset encodings (quality / digit / cigar length): decode(encode(t)) == t, encode(t)[i] == t[i] - min.
+  beyond 8 bits
+              text given as python str (str, list of str, numpy '<U' / object arrays, pandas Series, str pieces) can hold
+              characters that are no byte at all.  None is a member of any alphabet, so every alphabet encoding must refuse
+              them like any other foreign character - in particular those whose code point CUT TO 8 OR 16 BITS is a member or
+              the lower-case twin of a member ('A' + 0x100 = U+0141, 'a' + 0x10000 ...).  With the base encoding / no target /
+              a numeric encoding as target: the call raises or the result reads back as the same characters.
+  history     the encode contract for alphabet E evaluated AFTER other alphabet encodings (predefined ones, a second
+              user-made one) have encoded text of their own in the same process: the case carries its history and replays
+              it first, the input holds a character that is foreign to E but a member of an alphabet used before.  A failure
+              that a process in which only E was ever used shows too is reported under the plain encode signature.
   observers   all decode observers agree with the upper-cased text for the full alphabet in both cases.
 
 Scope: see `bounds` in the result.  The oracle is rtc/refmodels/alphabets.py (spec alphabets + ASCII upper-casing);
@@ -35,13 +45,16 @@ import time
 
 from .common import Collector
 from .refmodels.alphabets import (ALPHABETS, ALIASES, alphabet_bytes, is_letter_lower, valid, all_valid, expected_text,
-                                  foreign_bytes, classify_foreign, apply_view, apply_view_flat)
+                                  foreign_bytes, classify_foreign, apply_view, apply_view_flat, case_twins, wide_points,
+                                  classify_wide)
 
 ENC_NAMES = list(ALPHABETS)
 NUMERIC = {"Quality": 33, "NumDigit": 48, "CigarLen": 0}
 FLAT_PATHS = ["str", "encstr", "ndarray", "base"]
 RAGGED_PATHS = ["list", "enclist", "baseragged", "ragged", "nparr_U", "nparr_O", "series", "nd2", "list_of_base_arrays"]
 CORE_RAGGED = ["list", "enclist", "baseragged", "ragged", "nd2"]      # the others convert to a list of str first
+STR_FLAT_PATHS = ["str", "encstr"]                                    # input kinds that hold python str: characters >= 256 possible
+STR_RAGGED_PATHS = ["list", "enclist", "nparr_U", "nparr_O", "series"]
 
 
 # ----------------------------------------------------------------------------------------------- library access
@@ -86,6 +99,10 @@ def _encoding_error_types(path, data):
     ok = [EncodingError]
     if path in ("str", "encstr") and any(b >= 128 for b in data):
         ok.append(UnicodeEncodeError)      # str input is documented as ASCII text
+    if any(b >= 256 for b in data):
+        # a character that is no byte at all: being refused by the conversion to bytes counts as an encoding error
+        # (python: UnicodeEncodeError, numpy narrowing to uint8: OverflowError)
+        ok += [UnicodeEncodeError, OverflowError]
     return tuple(ok)
 
 
@@ -106,6 +123,8 @@ def build_flat(path, data, enc):
 
 
 def ragged_path_applicable(path, rows):
+    if path not in STR_RAGGED_PATHS and any(b >= 256 for r in rows for b in r):
+        return False                        # bytes cannot hold such characters
     if path in ("nparr_U", "nparr_O", "series", "list_of_base_arrays"):
         if len(rows) == 0:
             return False
@@ -121,9 +140,9 @@ def build_ragged(path, rows, enc):
     import bionumpy as bnp
     from npstructures import RaggedArray
     from bionumpy.encoded_array import EncodedArray, EncodedRaggedArray, BaseEncoding
-    flat = np.array([b for r in rows for b in r], dtype=np.uint8)
     lens = [len(r) for r in rows]
     strs = [s_of(r) for r in rows]
+    flat = None if path in STR_RAGGED_PATHS else np.array([b for r in rows for b in r], dtype=np.uint8)
     if path == "list":
         return bnp.as_encoded_array(strs, enc)
     if path == "enclist":
@@ -216,7 +235,9 @@ def eval_enc(col, case):
     lens = [len(r) for r in rows]
     exp = [expected_text(r) for r in rows]
     ok_expected = all_valid(allb, alphabet)
-    col.case(case, nontrivial=len(allb) > 0, contract="encode:" + ("accepts+roundtrip" if ok_expected else "rejects-foreign"))
+    wide = any(b >= 256 for b in allb)
+    col.case(case, nontrivial=len(allb) > 0, contract="encode:" + ("accepts+roundtrip" if ok_expected else
+                                                                     "rejects-foreign:beyond-latin1" if wide else "rejects-foreign"))
     try:
         r = build_flat(path, rows[0], enc) if is_flat else build_ragged(path, rows, enc)
     except Exception as e:
@@ -226,7 +247,7 @@ def eval_enc(col, case):
                      "%s: %s raised %s: %s" % (name, exp, type(e).__name__, str(e)[:200]))
         else:
             col.check(isinstance(e, _encoding_error_types(path, allb)),
-                      "encode:foreign:wrong-exception-type:%s:%s" % (type(e).__name__, path), case,
+                      "encode:foreign:%swrong-exception-type:%s:%s" % ("beyond-latin1:" if wide else "", type(e).__name__, path), case,
                       "%s: foreign input %r raised %s, not an encoding error: %s" % (name, rows, type(e).__name__, str(e)[:200]))
         return
     if path == "list_of_base_arrays" and getattr(r, "encoding", None) != enc:
@@ -241,6 +262,8 @@ def eval_enc(col, case):
         fb = foreign_bytes(allb, alphabet)
         cls = classify_foreign(fb, alphabet)
         sig = "encode:accepts-foreign:" + (cls if cls == "nonletter+32" else cls + ":" + path)
+        if any(f >= 256 for f in fb):
+            sig = "encode:accepts-foreign:beyond-latin1:%s:%s" % (classify_wide(fb, alphabet), path)
         col.fail(sig, case, "%s accepted %r (foreign bytes %r) and decodes it to %r"
                  % (name, rows, fb, _safe(lambda: rows_of(r, lens))))
         return
@@ -730,6 +753,182 @@ def eval_numeric(col, case):
     col.check(back_rows == rows, "numeric:roundtrip-changed:" + path, case, "%s: %r came back as %r" % (case["enc"], rows, back_rows))
 
 
+# ----------------------------------------------------------------------------------------------- contract: beyond 8 bits, other targets
+def eval_wide_text(col, case):
+    """case: {"k":"wide_text","dst": None | "Base" | numeric name, "path": str-holding input kind, "rows":[[code points],..]}
+    text with a character >= 256 presented without target / to the base encoding / to a numeric offset encoding:
+    the call raises, or what it returns reads back as the same characters (never as their code points cut to 8 bits)"""
+    import numpy as np
+    import bionumpy as bnp
+    dst, path = case.get("dst"), case["path"]
+    T = get_enc(dst) if dst else None
+    rows = [list(r) for r in case["rows"]]
+    strs = [s_of(r) for r in rows]
+    is_flat = path in STR_FLAT_PATHS
+    kind = "no" if dst is None else "numeric" if dst in NUMERIC else "base"
+    col.case(case, nontrivial=True, contract="beyond-latin1:%s-target:refuses-or-keeps-text" % kind)
+    if path in ("str", "encstr"):
+        x = strs[0]
+    elif path in ("list", "enclist"):
+        x = list(strs)
+    elif path == "nparr_U":
+        x = np.array(strs)
+    elif path == "nparr_O":
+        x = np.array(strs, dtype=object)
+    elif path == "series":
+        import pandas as pd
+        x = pd.Series(strs, dtype=object)
+    else:
+        raise KeyError(path)
+    try:
+        if path in ("encstr", "enclist"):
+            r = T.encode(x)
+        else:
+            r = bnp.as_encoded_array(x) if T is None else bnp.as_encoded_array(x, T)
+    except Exception:
+        return                      # refused: the property holds
+    if r is x:
+        return                      # handed back untouched
+    exp = [strs[0]] if is_flat else strs
+    tail = "%s-target:%s" % (kind, path)
+    try:
+        form, got = observe_pieces_result(r, T)
+    except Exception as e:
+        col.fail("beyond-latin1:result-not-decodable:%s:%s" % (type(e).__name__, tail), case,
+                 "%r%s was accepted but the result cannot be decoded: %s" % (x, ", %s" % dst if dst else "", str(e)[:200]))
+        return
+    if form == "flat":
+        ok = got == "".join(exp) and (is_flat or len(exp) == 1)
+    else:
+        ok = form == "rows" and got == exp
+    col.check(ok, "beyond-latin1:accepted-with-different-text:" + tail, case,
+              "%r%s (characters %r) was accepted and reads back as %r (result %s, encoding %r)"
+              % (x if not hasattr(x, "tolist") else x.tolist(), ", %s" % dst if dst else "", [[hex(c) for c in r_] for r_ in rows], got,
+                 type(r).__name__, getattr(r, "encoding", None)))
+
+
+# ----------------------------------------------------------------------------------------------- contract: encode after a history
+# What an alphabet encoding accepts must not depend on what OTHER alphabet encodings did before in the same process.  A case
+# carries its own history (names of encodings, in the order in which they were used) and replays it first: every encoding of
+# the history encodes its own alphabet in both cases, a legitimate use.  Then the plain encode contract is evaluated.
+class _Recorder:
+    """stands in for the Collector while the plain encode contract is evaluated: keeps what it would have reported"""
+
+    def __init__(self):
+        self.cases, self.failures = [], []
+
+    def case(self, descr, nontrivial=True, contract=None):
+        self.cases.append((nontrivial, contract))
+
+    def fail(self, signature, case, message):
+        self.failures.append((signature, case, message))
+
+    def check(self, cond, signature, case, message=""):
+        if not cond:
+            self.fail(signature, case, message)
+        return cond
+
+
+def use_alphabet(name):
+    """one legitimate use of an alphabet encoding: it encodes every member of its alphabet, upper and lower case"""
+    try:
+        get_enc(name).encode(s_of(case_twins(spec_alphabet(name))))
+    except Exception:
+        pass                        # an encoding that refuses its own alphabet: the encode contract reports that
+
+
+_FRESH_HELPERS = {}
+_FRESH_CODE = r"""
+import sys, json, importlib, warnings
+warnings.filterwarnings("ignore")
+m = importlib.import_module(sys.argv[1])
+for line in sys.stdin:
+    col = m.Collector("C06", "quick", 0, "fresh process")
+    m.evaluate(col, json.loads(line))
+    sys.stdout.write("@@" + json.dumps([f["signature"] for f in col.failures]) + "\n")
+    sys.stdout.flush()
+"""
+
+
+def _close_fresh_helpers():
+    for p in _FRESH_HELPERS.values():
+        try:
+            p.kill()
+        except Exception:
+            pass
+    _FRESH_HELPERS.clear()
+
+
+def fresh_process_signatures(enc_name, plain):
+    """the failure signatures of the plain encode case in a python process in which ONLY this alphabet encoding has ever been
+    used (one helper process per encoding, started when the first failure has to be classified); None: no answer"""
+    import atexit
+    import json
+    import os
+    import subprocess
+    import sys
+    import threading
+    try:
+        p = _FRESH_HELPERS.get(enc_name)
+        if p is None or p.poll() is not None:
+            if not _FRESH_HELPERS:
+                atexit.register(_close_fresh_helpers)
+            env = dict(os.environ, PYTHONPATH=os.pathsep.join(x for x in sys.path if x), PYTHONWARNINGS="ignore",
+                       PYTHONDONTWRITEBYTECODE="1")
+            p = subprocess.Popen([sys.executable, "-c", _FRESH_CODE, __name__], stdin=subprocess.PIPE, stdout=subprocess.PIPE,
+                                 stderr=subprocess.DEVNULL, env=env, text=True, bufsize=1)
+            _FRESH_HELPERS[enc_name] = p
+        timer = threading.Timer(120, p.kill)
+        timer.start()
+        try:
+            p.stdin.write(json.dumps(plain) + "\n")
+            p.stdin.flush()
+            while True:
+                line = p.stdout.readline()
+                if not line:
+                    return None
+                if line.startswith("@@"):
+                    return json.loads(line[2:])
+        finally:
+            timer.cancel()
+    except Exception:
+        return None
+
+
+def history_signature(sig, plain, hist):
+    if sig.startswith("encode:accepts-foreign:"):
+        rows = [plain["data"]] if "data" in plain else plain["rows"]
+        fb = foreign_bytes([b for r in rows for b in r], spec_alphabet(plain["enc"]))
+        used = {b for h in hist for b in case_twins(spec_alphabet(h))}
+        cls = "member-of-alphabet-used-before" if fb and all(f in used for f in fb) else "other"
+        return "encode-after-history:accepts-foreign:%s:%s" % (cls, plain["path"])
+    return "encode-after-history:" + sig
+
+
+def eval_enc_after(col, case):
+    """case: {"k":"enc_after","history":[encoding names in the order of their use],"enc":name,"path":p,"data"|"rows":..}"""
+    hist = list(case["history"])
+    plain = {k: v for k, v in case.items() if k != "history"}
+    plain["k"] = "enc"
+    for h in hist:
+        use_alphabet(h)
+    rec = _Recorder()
+    eval_enc(rec, plain)
+    for nontrivial, contract in rec.cases:
+        col.case(case, nontrivial=nontrivial, contract="history:" + contract)
+    if not rec.failures:
+        return
+    fresh = fresh_process_signatures(case["enc"], plain)
+    for sig, _, msg in rec.failures:
+        if fresh is not None and sig in fresh:
+            col.fail(sig, plain, msg)       # not a matter of the history: the plain class, the plain case
+        else:
+            col.fail(history_signature(sig, plain, hist), case,
+                     "after %s had each encoded their own alphabet in this process%s: %s"
+                     % (", ".join(hist), " (a process that only ever used %s handles the same input correctly)" % case["enc"]
+                        if fresh is not None else " (no answer from a fresh process)", msg))
+
+
 # ----------------------------------------------------------------------------------------------- contract: observers
 def eval_observers(col, case):
     import bionumpy as bnp
@@ -792,7 +991,7 @@ def _cut(t, lens):
     return out + ([t[o:]] if o != len(t) else [])
 
 
-EVAL = {"enc": eval_enc, "retarget": eval_retarget, "pieces": eval_pieces, "retarget_view": eval_retarget_view, "retarget_other": eval_retarget_other, "numeric": eval_numeric,
+EVAL = {"enc": eval_enc, "enc_after": eval_enc_after, "wide_text": eval_wide_text, "retarget": eval_retarget, "pieces": eval_pieces, "retarget_view": eval_retarget_view, "retarget_other": eval_retarget_other, "numeric": eval_numeric,
         "observers": eval_observers}
 
 
@@ -1301,6 +1500,189 @@ def gen_views(tier):
                 yield {"k": "retarget_view", "src": src, "dst": dst, "fn": fn, "big": big, "view": view}
 
 
+# characters beyond 8 bits: member / lower-case twin + a multiple of 256 (so that cutting the code point to 8 bits - and for
+# the multiples of 65536 also to 16 bits - lands on a byte the alphabet accepts), plus characters related to no member
+WIDE_OFFSETS = {"quick": (0x100, 0x200, 0x10000, 0x1F400),
+                "thorough": (0x100, 0x200, 0x300, 0x7F00, 0xFF00, 0x10000, 0x10100, 0x1F400, 0x100000, 0x10FF00)}
+WIDE_UNRELATED = (0x100, 0x2603, 0xFFFF, 0x10FFFF)
+WIDE_TEXT_POINTS = (0x141, 0x161, 0x100, 0x17F, 0x10041, 0x1F441, 0x2603, 0xFFFF, 0x10FFFF)
+
+
+def gen_wide(tier):
+    # ---- 1b. characters beyond 8 bits through every input kind that holds python str
+    thorough = tier == "thorough"
+    for name in ENC_NAMES + (["DNAEncoding", "RNAENcoding", "fresh:acgtn"] if thorough else []):
+        alphabet = spec_alphabet(name)
+        ab = alphabet_bytes(alphabet)
+        a0, a1, al = ab[0], ab[1], ab[-1]
+        low = lambda b: b + 32 if 65 <= b <= 90 else b
+        pts = [cp for cp, _ in wide_points(alphabet, WIDE_OFFSETS[tier])] + [c for c in WIDE_UNRELATED]
+        for cp in pts:
+            for path in STR_FLAT_PATHS:
+                yield {"k": "enc", "enc": name, "path": path, "data": [cp]}
+                yield {"k": "enc", "enc": name, "path": path, "data": [a0, cp, low(al)]}
+            for path in STR_RAGGED_PATHS:
+                yield {"k": "enc", "enc": name, "path": path, "rows": [[cp]]}
+                yield {"k": "enc", "enc": name, "path": path, "rows": [[a0, low(a1)], [cp, al], [a0, a0, a0]]}
+        # every (row, position) of a list; quick: the characters 256 above a member / twin
+        base = [[a0, low(a1)], [al], []]
+        for cp, _ in wide_points(alphabet, WIDE_OFFSETS[tier] if thorough else (0x100,)):
+            for ri in range(len(base)):
+                for pos in range(len(base[ri]) + 1):
+                    rows = [list(r) for r in base]
+                    rows[ri] = rows[ri][:pos] + [cp] + rows[ri][pos:]
+                    for path in ("list", "enclist") if thorough else ("list",):
+                        yield {"k": "enc", "enc": name, "path": path, "rows": rows}
+    # without target / base encoding / numeric offset encodings as the target
+    for dst in (None, "Base"):
+        for cp in WIDE_TEXT_POINTS + (tuple(b + 0x100 for b in range(128)) if thorough else ()):
+            for path in STR_FLAT_PATHS + STR_RAGGED_PATHS:
+                if dst is None and path in ("encstr", "enclist"):
+                    continue
+                for rows in ([[cp]], [[65, 99], [cp, 71], []]):
+                    yield {"k": "wide_text", "dst": dst, "path": path, "rows": rows}
+    for dst, lo in NUMERIC.items():
+        for cp in (lo + 0x100, lo + 1 + 0x100, 126 + 0x100, lo + 0x10000, 0x2603, 0x10FFFF):
+            for path in ("str", "encstr", "list", "enclist"):
+                for rows in ([[cp]], [[lo + 1, 126], [cp, lo], []]):
+                    yield {"k": "wide_text", "dst": dst, "path": path, "rows": rows}
+    # str pieces next to encoded pieces
+    for e1 in PIECE_ENCS:
+        w = piece_letters(e1, "Base")
+        for cp in (w[0] + 0x100, w[-1] + 0x10000, (w[1] + 32 if 65 <= w[1] <= 90 else w[1]) + 0x200):
+            for dst in (None, e1, "Base") if not e1.startswith("fresh:") else (None, "Base"):
+                yield {"k": "pieces", "pieces": [{"as": "str", "data": [cp, w[1]]}, _row(e1, w, 1, 3)], "dst": dst}
+                yield {"k": "pieces", "pieces": [_row(e1, w, 1, 3), {"as": "str", "data": [w[1], cp]}], "dst": dst}
+                yield {"k": "pieces", "pieces": [{"as": "str", "data": [cp]}, _letter(e1, w, 2)], "dst": dst}
+                yield {"k": "pieces", "pieces": [{"as": "str", "data": [cp, w[1]]}, {"as": "str", "data": [w[0]]}], "dst": dst,
+                       "container": "tuple"}
+
+
+# a second, user-made alphabet: its members belong to no predefined alphabet and get the codes 0..3
+HISTORY_FRESH = "fresh:JOZ?"
+
+
+def histories(name, tier):
+    """[(label, [encodings used before, in this order])] for the alphabet encoding `name`"""
+    others = [n for n in ENC_NAMES if n != name]
+    out = [("all", others + [HISTORY_FRESH]), ("all-reversed", [HISTORY_FRESH] + others[::-1]),
+           ("self-first", [name] + others + [HISTORY_FRESH])]
+    out += [("one", [o]) for o in others + [HISTORY_FRESH]]
+    if tier == "thorough":
+        out += [("two", [o1, o2]) for o1 in others for o2 in others if o1 != o2]
+    return out
+
+
+def history_foreign(name, hist):
+    """the bytes that are foreign to `name` and accepted by an alphabet of the history (members and lower-case twins)"""
+    alphabet = spec_alphabet(name)
+    return sorted({b for h in hist for b in case_twins(spec_alphabet(h)) if not valid(b, alphabet)})
+
+
+def gen_history(tier):
+    # ---- 1c. the encode contract after other alphabet encodings were used in the same process
+    thorough = tier == "thorough"
+    for name in ENC_NAMES:
+        ab = alphabet_bytes(ALPHABETS[name])
+        a0, a1, al = ab[0], ab[1], ab[-1]
+        own = case_twins(ALPHABETS[name])
+        for label, hist in histories(name, tier):
+            mk = lambda path, **kw: dict({"k": "enc_after", "history": hist, "enc": name, "path": path}, **kw)
+            fs = history_foreign(name, hist if label != "two" else hist[:1])
+            full = label in ("all", "all-reversed", "self-first")
+            if full:                                    # its own alphabet is still accepted and reads back
+                yield mk("str", data=own)
+                yield mk("list", rows=[own[:2], [], own[2:]])
+            for f in fs:
+                d1, d2 = [f], [a0, f, al]
+                r1, r2 = [[a0, a1], [f, al]], [[f], [], [a0]]
+                if full and thorough:
+                    for path in FLAT_PATHS:
+                        yield mk(path, data=d1)
+                        yield mk(path, data=d2)
+                    for path in RAGGED_PATHS:
+                        if path == "list_of_base_arrays":
+                            continue                    # the target is not applied at all there (known)
+                        for rows in (r1, r2, [[a0, f], [al, a0]]):
+                            if ragged_path_applicable(path, rows):
+                                yield mk(path, rows=rows)
+                elif label == "all":
+                    yield mk("str", data=d2)
+                    yield mk("encstr", data=d1)
+                    yield mk("ndarray", data=d2)
+                    yield mk("base", data=d1)
+                    yield mk("list", rows=r1)
+                    yield mk("ragged", rows=r2)
+                    yield mk("baseragged", rows=r1)
+                    yield mk("nd2", rows=[[a0, f], [al, a0]])
+                elif full:
+                    yield mk("str", data=d2)
+                    yield mk("list", rows=r1)
+                else:
+                    yield mk("str", data=d1)
+                    yield mk("list", rows=r1)
+
+
+def sampled_history_cases(seed, n):
+    """above the bounds: random histories (1..7 encodings, repeats and the encoding itself allowed, user-made alphabets of random
+    letters), a random character of an alphabet used before (or beyond 8 bits) at a random position of a longer text"""
+    import random
+    rng = random.Random(seed * 15485863 + 606)
+    for _ in range(n):
+        name = rng.choice(ENC_NAMES)
+        alphabet = ALPHABETS[name]
+        own = case_twins(alphabet)
+        hist = []
+        for _ in range(rng.randint(1, 7)):
+            if rng.random() < 0.2:
+                hist.append("fresh:" + "".join(rng.sample("ABCDEFGHIJKLMNOPQRSTUVWXYZ0123456789+-.=*?", rng.randint(2, 12))))
+            else:
+                hist.append(rng.choice(ENC_NAMES))
+        if all(h == name for h in hist):
+            continue
+        data = [rng.choice(own) for _ in range(rng.randint(0, 12))]
+        fs = history_foreign(name, [h for h in hist if h != name])
+        wide = rng.random() < 0.15
+        if fs and rng.random() < 0.85:
+            f = rng.choice(fs)
+            if wide:
+                f += rng.choice((0x100, 0x200, 0x10000, 0x1F400))
+            data.insert(rng.randint(0, len(data)), f)
+        case = {"k": "enc_after", "history": hist, "enc": name}
+        if rng.random() < 0.5:
+            case["path"] = rng.choice(STR_FLAT_PATHS if wide else FLAT_PATHS)
+            case["data"] = data
+        else:
+            cuts = sorted(rng.randrange(len(data) + 1) for _ in range(rng.randint(0, 3)))
+            rows = [data[a:b] for a, b in zip([0] + cuts, cuts + [len(data)])]
+            case["path"] = rng.choice(STR_RAGGED_PATHS if wide else [p_ for p_ in RAGGED_PATHS if p_ != "list_of_base_arrays"])
+            case["rows"] = rows
+            if not ragged_path_applicable(case["path"], rows):
+                continue
+        yield case
+
+
+def sampled_wide_cases(seed, n):
+    """above the bounds: longer texts / lists with one random character beyond 8 bits (any offset, any low byte)"""
+    import random
+    rng = random.Random(seed * 32452843 + 6006)
+    for _ in range(n):
+        name = rng.choice(ENC_NAMES)
+        own = case_twins(ALPHABETS[name])
+        data = [rng.choice(own) for _ in range(rng.randint(1, 30))]
+        while True:
+            cp = (rng.choice(own) if rng.random() < 0.7 else rng.randrange(256)) + 256 * rng.randrange(1, 0x10FF)
+            if not 0xD800 <= cp < 0xE000 and cp <= 0x10FFFF:
+                break
+        data.insert(rng.randint(0, len(data)), cp)
+        if rng.random() < 0.3:
+            yield {"k": "enc", "enc": name, "path": rng.choice(STR_FLAT_PATHS), "data": data}
+        else:
+            cuts = sorted(rng.randrange(len(data) + 1) for _ in range(rng.randint(0, 4)))
+            rows = [data[a:b] for a, b in zip([0] + cuts, cuts + [len(data)])]
+            yield {"k": "enc", "enc": name, "path": rng.choice(STR_RAGGED_PATHS), "rows": rows}
+
+
 def gen_numeric(tier):
     # ---- 5. numeric offset encodings
     for name, lo in NUMERIC.items():
@@ -1319,7 +1701,7 @@ def gen_numeric(tier):
 
 def gen_cases(tier, rng=None):
     """order: cheap and defect-prone parts first, so that a cut by the time budget loses the least"""
-    for g in (gen_bytes, gen_numeric, gen_pieces, gen_retarget, gen_views, gen_strings, gen_lists):
+    for g in (gen_bytes, gen_numeric, gen_wide, gen_history, gen_pieces, gen_retarget, gen_views, gen_strings, gen_lists):
         yield from g(tier)
 
 
@@ -1394,9 +1776,12 @@ def run(tier="quick", seed=0):
                     "by a[::-1] / a[idx] / a[mask] / a[i:j] / a[::2] / a[:, c0:c1] and chains, handed over unread): every ordered pair "
                     "of alphabets x a family of big arrays x every kind of view, and per function one pair x every big array of 2..N "
                     "rows x every kind of view, and x every slice / mask / index list / column trim of one array; "
+                    "characters beyond 8 bits (member or lower-case twin + a multiple of 256 / 65536) through every input kind that "
+                    "holds python str; the encode contract after a history of other alphabet encodings used in the same process "
+                    "(every character of an alphabet used before that is foreign to the current one); "
                     "distinct = distinct (encoding, input kind, byte content[, view]); non-trivial = non-empty content "
                     "(views: and the source really was unflattened when handed over)",
-                    budget_s=(55 if tier == "quick" else 560))
+                    budget_s=(62 if tier == "quick" else 610))
     col.bounds = {
         "encodings": ENC_NAMES + ["DNAEncoding", "RNAENcoding", "fresh:acgtn (byte table only)"],
         "bytes": "0..255 at length 1 through %d input kinds" % (len(FLAT_PATHS) + len(RAGGED_PATHS)),
@@ -1445,9 +1830,36 @@ def run(tier="quick", seed=0):
             "oracle": "the call raises, or the result reads back as the texts of the pieces (spec alphabets), piece for piece",
         },
         "numeric": "every byte >= min_code for Quality(33), Digit(48), CigarLen(0)",
+        "beyond_8_bits": {
+            "characters": "every member and lower-case twin of every alphabet + each of %s, plus the unrelated %s"
+                          % ([hex(o) for o in WIDE_OFFSETS[tier]], [hex(c) for c in WIDE_UNRELATED]),
+            "input kinds": STR_FLAT_PATHS + STR_RAGGED_PATHS,
+            "texts": "the character alone and inside alphabet text (flat: 3 characters; lists: 1 row and 3 rows); every "
+                     "(row, position) of a 3-row list for %s" % ("every character" if tier == "thorough" else "the characters member + 0x100"),
+            "other targets": "no target / base encoding x %d characters%s x every str input kind; Quality / Digit / CigarLen x 6 "
+                             "characters x {str, list} x {as_encoded_array, encode}: raises or reads back as the same characters"
+                             % (len(WIDE_TEXT_POINTS), " + every byte + 0x100" if tier == "thorough" else ""),
+            "pieces": "a str piece holding such a character next to an encoded row / letter / another str, 3 characters x every "
+                      "piece encoding x targets {none, the piece encoding, Base}",
+            "refusal": "EncodingError, or the refusal of the conversion to bytes (UnicodeEncodeError, OverflowError)",
+        },
+        "history": {
+            "histories per alphabet encoding E": "all 9 other predefined ones + a user-made one (%s), in declaration order / "
+                "reversed / with E itself used first; each single other encoding%s; every encoding of the history encodes its own "
+                "alphabet in both cases before the contract is evaluated (the case replays its history)"
+                % (HISTORY_FRESH, "; every ordered pair of two others" if tier == "thorough" else ""),
+            "characters": "every member / lower-case twin of an alphabet of the history that is foreign to E (pairs: of the first "
+                          "one), alone and inside text of E; E's own alphabet (must still be accepted and read back)",
+            "input kinds": "every flat and ragged kind x 2-3 texts (full histories)" if tier == "thorough" else
+                           "8 kinds after the full history, str + list after the other histories",
+            "classification": "a failure that a python process in which only E was used shows too (helper process per encoding, "
+                              "started on the first failure) is reported under the plain encode signature",
+        },
         "sampled": "random strings of length 5..40 above the bounds (seeded); random views: big arrays of 3..12 rows of length "
                    "0..8, chains of 1..3 random indexing steps (seeded, time permitting); random lists of 2..7 encoded pieces "
-                   "(1..3 encodings, random kinds / ways / targets / containers)",
+                   "(1..3 encodings, random kinds / ways / targets / containers); random texts / lists of 2..31 characters with one "
+                   "random character beyond 8 bits; random histories of 1..7 encodings (repeats, user-made alphabets of random "
+                   "letters) followed by text with a character of an alphabet used before",
     }
     for case in gen_cases(tier, col.rng):
         evaluate(col, case)
@@ -1463,6 +1875,11 @@ def run(tier="quick", seed=0):
             if time.time() - col.t0 > col.budget_s:
                 break
             evaluate(col, case)
+        for gen_, n_ in ((sampled_wide_cases, 200 if tier == "quick" else 4000), (sampled_history_cases, 200 if tier == "quick" else 4000)):
+            for case in gen_(seed, n_):
+                if time.time() - col.t0 > col.budget_s:
+                    break
+                evaluate(col, case)
         for case in sampled_view_cases(seed, 200 if tier == "quick" else 10000):
             if time.time() - col.t0 > col.budget_s:
                 break
